@@ -7,6 +7,7 @@ package main
 // sides of the lifetime under the virtual clock.
 
 import (
+	"bytes"
 	"encoding/base64"
 	"fmt"
 	"strings"
@@ -161,6 +162,39 @@ func TestC07(t *testing.T) {
 			text := base64.URLEncoding.EncodeToString(r2[:len(tk.nonce)]) + ":" + base64.URLEncoding.EncodeToString(r2[len(tk.nonce):])
 			present("bitflip", tk.fac, text, now)
 		}
+		// 2b. every single-byte insertion and deletion in the decoded nonce and ciphertext, and
+		//     1..16 bytes appended / prepended to either part (also parts of other tokens)
+		enc := func(n, c []byte) string {
+			return base64.URLEncoding.EncodeToString(n) + ":" + base64.URLEncoding.EncodeToString(c)
+		}
+		ins := func(b []byte, i int, x []byte) []byte {
+			return append(append(append([]byte{}, b[:i]...), x...), b[i:]...)
+		}
+		for i := 0; i <= len(tk.nonce); i++ {
+			present("nonce-byte-inserted", tk.fac, enc(ins(tk.nonce, i, []byte{0}), tk.ct), now)
+			present("nonce-byte-inserted", tk.fac, enc(ins(tk.nonce, i, []byte{0xff}), tk.ct), now)
+			if i < len(tk.nonce) {
+				present("nonce-byte-deleted", tk.fac, enc(append(append([]byte{}, tk.nonce[:i]...), tk.nonce[i+1:]...), tk.ct), now)
+			}
+		}
+		for i := 0; i <= len(tk.ct); i++ {
+			present("ciphertext-byte-inserted", tk.fac, enc(tk.nonce, ins(tk.ct, i, []byte{0})), now)
+			if i < len(tk.ct) {
+				present("ciphertext-byte-deleted", tk.fac, enc(tk.nonce, append(append([]byte{}, tk.ct[:i]...), tk.ct[i+1:]...)), now)
+			}
+		}
+		other := toks[(len(toks)/2+3)%len(toks)]
+		for k := 1; k <= 16; k++ {
+			pad := bytes.Repeat([]byte{byte(k)}, k)
+			present("nonce-extended", tk.fac, enc(append(append([]byte{}, tk.nonce...), pad...), tk.ct), now)
+			present("nonce-prefixed", tk.fac, enc(append(append([]byte{}, pad...), tk.nonce...), tk.ct), now)
+			present("ciphertext-extended", tk.fac, enc(tk.nonce, append(append([]byte{}, tk.ct...), pad...)), now)
+			present("ciphertext-prefixed", tk.fac, enc(tk.nonce, append(append([]byte{}, pad...), tk.ct...)), now)
+		}
+		present("nonce-extended-by-other-nonce", tk.fac, enc(append(append([]byte{}, tk.nonce...), other.nonce...), tk.ct), now)
+		present("nonce-extended-by-other-ciphertext", tk.fac, enc(append(append([]byte{}, tk.nonce...), other.ct...), tk.ct), now)
+		present("ciphertext-extended-by-other", tk.fac, enc(tk.nonce, append(append([]byte{}, tk.ct...), other.ct...)), now)
+		present("nonce-doubled", tk.fac, enc(append(append([]byte{}, tk.nonce...), tk.nonce...), tk.ct), now)
 		// 3. every single-character substitution / deletion / insertion of the text
 		for i := 0; i < len(tk.text); i++ {
 			for _, ch := range alpha {
